@@ -184,9 +184,10 @@ func randomBuild(pattern string, build func(string) (Cgroup, error)) (Cgroup, er
 	for {
 		name := prefix + nextRandom() + suffix
 		cg, err := build(name)
-		if err == nil {
+		if err == nil && !cg.Existing() {
 			return cg, nil
 		}
+		// a name that is taken (build opens an existing group without error) is not a new group
 		if errors.Is(err, os.ErrExist) || (cg != nil && cg.Existing()) {
 			if try++; try < 10000 {
 				continue
